@@ -52,7 +52,10 @@ RULE = ("independently generated SMT-LIB scripts (nested/parallel/shadowing let,
         "position of every term-carrying command, with the declared-name control.  Command-sequence stream: one parser object "
         "reads declarations, one rejected command (sibling binders of one name closed, then one open at the failure), then "
         "valid probes.  Definition-chain stream: 2-4 definitions with equally named and sorted parameters, the later ones applying the "
-        "earlier ones to their parameters in another order or to compound terms over them.")
+        "earlier ones to their parameters in another order or to compound terms over them.  Formula-routes stream: scripts of "
+        "declarations, small assertions, (push n) / (pop n) with n in 0..2 and check-sat, read through the formula-level public "
+        "routes (get_last_formula, get_formula, get_formula_fname(strict=False), get_formula_strict / read_smtlib without push/pop): "
+        "the formula returned must mean the conjunction of the assertions in force at the end (generator's own stack; Lean runStd).")
 ASSUMPTIONS = [
     "arrays: finitely supported interpretations only; reals are rationals",
     "interpretations under which a division by zero is evaluated are skipped",
@@ -2992,6 +2995,403 @@ REPAIRED_SHAPES = [
 ]
 
 
+# ------------------------------------------------------------------------------------------
+# the FORMULA-level routes of the parser (DESIGN 11.7: reach the functionality through its public glue routes too):
+# `SmtLibScript.get_last_formula`, `get_formula`, `get_formula_fname(strict=False)` (and `get_formula_strict` /
+# `read_smtlib` when the script has no push/pop) must return a formula with the meaning of the conjunction of the
+# assertions IN FORCE at the end of the script.  Two oracles: the generator's own denotation (it keeps the assertion
+# stack itself) and the Lean standard interpreter (`Std.runStd`, driver request `stdlive`).
+LIVE_QUEUE = []
+ROUTE_NAMES = ("get_script+get_last_formula", "get_formula", "get_formula_fname(strict=False)")
+STRICT_ROUTES = ("get_formula_strict", "shortcuts.read_smtlib")
+
+
+def _route_formula(route, text):
+    """-> ("ok", formula, env) | ("err", class, message): the formula the public route `route` returns for `text`"""
+    import tempfile
+    from pysmt.smtlib import parser as P
+    env = Environment()
+    path = None
+    try:
+        with warnings.catch_warnings():
+            warnings.simplefilter("ignore")
+            if route == "get_script+get_last_formula":
+                f = SmtLibParser(env).get_script(io.StringIO(text)).get_last_formula(env.formula_manager)
+            elif route == "get_formula":
+                f = P.get_formula(io.StringIO(text), environment=env)
+            elif route == "get_formula_strict":
+                f = P.get_formula_strict(io.StringIO(text), environment=env)
+            else:
+                fd, path = tempfile.mkstemp(suffix=".smt2", prefix="c08route_")
+                with os.fdopen(fd, "w") as fh:
+                    fh.write(text)
+                if route == "get_formula_fname(strict=False)":
+                    f = P.get_formula_fname(path, environment=env, strict=False)
+                elif route == "shortcuts.read_smtlib":
+                    # the shortcut takes no environment: it reads into the CURRENT one
+                    import pysmt.shortcuts as S
+                    with env:
+                        f = S.read_smtlib(path)
+                else:
+                    raise ValueError(route)
+        return ("ok", f, env)
+    except RecursionError:
+        raise
+    except Exception as e:
+        return ("err", type(e).__name__, str(e)[:200])
+    finally:
+        if path:
+            try:
+                os.unlink(path)
+            except OSError:
+                pass
+
+
+def _route_atoms(rng):
+    """a small assertion as (text, builder(mgr, syms))"""
+    from pysmt.typing import BOOL, INT
+    P = ["p%d" % i for i in range(4)]
+    I = ["i%d" % i for i in range(3)]
+    k = rng.randrange(7)
+    a, b = rng.choice(P), rng.choice(P)
+    x, y = rng.choice(I), rng.choice(I)
+    c = rng.randint(0, 3)
+    if k == 0:
+        return a, lambda m, s: s[a]
+    if k == 1:
+        return "(not %s)" % a, lambda m, s: m.Not(s[a])
+    if k == 2:
+        return "(or %s (not %s))" % (a, b), lambda m, s: m.Or(s[a], m.Not(s[b]))
+    if k == 3:
+        return "(< %s %s)" % (x, y), lambda m, s: m.LT(s[x], s[y])
+    if k == 4:
+        return "(= %s (+ %s %d))" % (x, y, c), lambda m, s: m.Equals(s[x], m.Plus(s[y], m.Int(c)))
+    if k == 5:
+        return "(<= %s %d)" % (x, c), lambda m, s: m.LE(s[x], m.Int(c))
+    return "(=> %s (< %s %d))" % (a, x, c), lambda m, s: m.Implies(s[a], m.LT(s[x], m.Int(c)))
+
+
+def gen_route_script(rng, with_stack=True):
+    """-> (text, live): a script of declarations, assertions, `(push n)` / `(pop n)` with n in 0..2 (n at most the
+    number of open levels), `(check-sat)`; `live`: the assertions in force at the end, by the generator's own stack"""
+    decls = ["(declare-fun p%d () Bool)" % i for i in range(4)] + ["(declare-const i%d Int)" % i for i in range(3)]
+    parts = ["(set-logic QF_LIA)"] if rng.random() < 0.5 else []
+    parts += decls
+    levels = [[]]
+    for _ in range(rng.randint(3, 12)):
+        r = rng.random()
+        if not with_stack or r < 0.5:
+            t, b = _route_atoms(rng)
+            parts.append("(assert %s)" % t)
+            levels[-1].append((t, b))
+        elif r < 0.72:
+            n = rng.choice([0, 1, 1, 2])
+            parts.append("(push %d)" % n if n != 1 or rng.random() < 0.7 else "(push)")
+            for _ in range(n):
+                levels.append([])
+        elif r < 0.94:
+            n = rng.choice([0, 0, 1, 1, 2])
+            if n > len(levels) - 1:
+                n = len(levels) - 1
+            parts.append("(pop %d)" % n if n != 1 or rng.random() < 0.7 else "(pop)")
+            for _ in range(n):
+                levels.pop()
+        else:
+            parts.append("(check-sat)")
+    if not with_stack:
+        parts = [x for x in parts if x != "(check-sat)"] + ["(check-sat)"]
+    return "\n".join(parts), [x for lv in levels for x in lv]
+
+
+def _route_check(ctx, ig, lines, meta, route, text, live):
+    from pysmt.typing import BOOL, INT
+    res = _route_formula(route, text)
+    ctx.count("route_cases")
+    rep = {"text": text, "stream": "formula-routes", "route": route, "live": [t for t, _ in live],
+           "command": "route " + route}
+    if res[0] == "err":
+        ctx.report_s({"oracle": "accept", "stream": "formula-routes", "route": route, "error": res[1]},
+                     "%s raises %s (%s) on a legal script (the command list is read without error by get_script)"
+                     % (route, res[1], res[2][:120]), rep)
+        return
+    got, env = res[1], res[2]
+    m = env.formula_manager
+    syms = dict([("p%d" % i, m.Symbol("p%d" % i, BOOL)) for i in range(4)] + [("i%d" % i, m.Symbol("i%d" % i, INT)) for i in range(3)])
+    want = m.And([b(m, syms) for _, b in live])
+    rep = dict(rep, returned=semantic.readable(got), intended=semantic.readable(want))
+    if got is want:
+        ctx.count("route_identical")
+    try:
+        interps = ig.sample([want, got], n=10)
+        lines.append(semantic.chk_equiv_line(want, got, interps, check_fv=False))
+        meta.append(({"oracle": "meaning", "stream": "formula-routes", "route": route}, rep))
+        LIVE_QUEUE.append((text, got, interps, rep))
+    except wire.OutOfFragment:
+        ctx.count("out_of_fragment")
+
+
+def run_formula_routes(ctx, ig, lines, meta, n):
+    del LIVE_QUEUE[:]
+    # witness: `(pop 0)` with an open level is a no-op
+    wit = ("(declare-fun p0 () Bool)(declare-fun p1 () Bool)(declare-fun p2 () Bool)(declare-fun p3 () Bool)"
+           "(declare-const i0 Int)(declare-const i1 Int)(declare-const i2 Int)"
+           "(assert p0)(push 1)(assert p1)(pop 0)(assert (not p2))(push 1)(assert p3)(pop 1)")
+    wl = [("p0", lambda m, s: s["p0"]), ("p1", lambda m, s: s["p1"]), ("(not p2)", lambda m, s: m.Not(s["p2"]))]
+    for route in ROUTE_NAMES:
+        _route_check(ctx, ig, lines, meta, route, wit, wl)
+    K_TEXTS.append(("formula-routes", wit))
+    for i in range(n):
+        if ctx.time_left() < (45 if ctx.tier == "quick" else 300):
+            break
+        with_stack = ctx.rng.random() < 0.8
+        text, live = gen_route_script(ctx.rng, with_stack)
+        ctx.case(("route", text))
+        if i % 4 == 0:
+            K_TEXTS.append(("formula-routes", text))
+        routes = ROUTE_NAMES if with_stack else ROUTE_NAMES + STRICT_ROUTES
+        for route in ([ctx.rng.choice(routes)] if i % 3 else routes):
+            _route_check(ctx, ig, lines, meta, route, text, live)
+
+
+def run_live_oracle(ctx):
+    """second oracle of the formula-level routes: the conjunction of the assertions the Lean standard interpreter
+    (`Std.runStd`) has in force at the end of the very same text"""
+    if not LIVE_QUEUE:
+        return
+    try:
+        answers = ctx.lean_run_sharded("C08", ["stdlive " + hx(t) for t, _, _, _ in LIVE_QUEUE])
+    except common.LeanError as e:
+        ctx.report_l("driver C08 does not run", str(e))
+        return
+    lines, meta = [], []
+    for (text, got, interps, rep), ans in zip(LIVE_QUEUE, answers):
+        if not ans.startswith("ok "):
+            ctx.report_s({"oracle": "std-live", "stream": "formula-routes", "kind": "standard-rejects"},
+                         "the Lean standard interpreter does not accept a script of the formula-routes stream: %s" % ans[:120], rep)
+            continue
+        std_term = ans.split(" ", 2)[2]
+        if int(ans.split()[1]) != len(rep["live"]):
+            ctx.report_s({"oracle": "std-live", "stream": "formula-routes", "kind": "generator-disagrees"},
+                         "generator and Lean standard interpreter disagree on the number of assertions in force: %d / %s"
+                         % (len(rep["live"]), ans.split()[1]), rep)
+            continue
+        parts = ["chk_equiv_nofv", str(len(interps))]
+        for (sy, fn, doms) in interps:
+            parts.append(wire.enc_interp(sy, fn, doms))
+        parts.append(std_term)
+        prefix = " ".join(parts)
+        lines.append(prefix + " " + wire.enc_term(got))
+        meta.append(({"oracle": "std-live", "stream": "formula-routes", "route": rep["route"]}, dict(rep, request_prefix=prefix)))
+    try:
+        answers = ctx.lean_run_sharded("Sem", lines)
+    except common.LeanError as e:
+        ctx.report_l("driver Sem does not run", str(e))
+        return
+    for line, ans, (sig, rep) in zip(lines, answers, meta):
+        if ans.startswith("ok"):
+            ctx.count("live_compared", int(ans.split()[1]))
+            continue
+        if ans.startswith("bad-op"):
+            ctx.infra("Sem driver rejected a request: %s" % ans)
+            continue
+        ctx.report_s(dict(sig, kind=ans.split()[1]),
+                     "the formula %s returns does not have the meaning of the assertions in force at the end of the script "
+                     "for the standard interpreter (Lean `runStd`) (%s): returned %s, in force %s"
+                     % (rep["route"], ans[:80], rep["returned"], rep["live"]), dict(rep, request=line, answer=ans))
+
+
+# ------------------------------------------------------------------------------------------
+# extreme but legal numerals and names (DESIGN: round 5)
+# (1) `/` over two NUMERALS in contexts where numerals are Int-typed (no set-logic, logics with integer arithmetic; a pure real
+#     logic as control): non-dyadic quotients, operands beyond 2**53 / 2**64, negative operands.  pySMT reads the quotient as the
+#     exact Real constant.  Oracles: the generator's exact rational (object identity with the formula it builds in the parser's
+#     environment, and the Lean evaluator under interpretations that hold the exact value), and the Lean standard reader on the
+#     DECIMALISED twin of the text (`(/ 1.0 3.0)` is well-sorted for the standard in every logic).
+BIG_NUMS = [2 ** 53 + 1, 2 ** 64 + 1, 2 ** 64 + 3, 10 ** 30 + 1, 36893488147419103233, 3 ** 40]
+SMALL_QUOTS = [(1, 3), (2, 10), (7, 9), (22, 7), (1, 10), (3, 10), (5, 6), (1, 7), (10, 3)]
+
+
+def _num_text(n, decimal):
+    t = "%d%s" % (abs(n), ".0" if decimal else "")
+    return "(- %s)" % t if n < 0 else t
+
+
+def numeral_division_case(rng):
+    """-> (header, body(decimal) -> text of the commands after the header, build(m) -> intended formulas, hints)"""
+    from pysmt.typing import REAL
+    k = rng.random()
+    if k < 0.45:
+        n, d = rng.choice(SMALL_QUOTS)
+    elif k < 0.8:
+        n, d = rng.choice(BIG_NUMS), rng.choice([1, 3, 7, rng.choice(BIG_NUMS)])
+        if rng.random() < 0.4:
+            n, d = d, n
+    else:
+        n, d = rng.randint(1, 10 ** 20), rng.randint(2, 10 ** 20)
+    if rng.random() < 0.3:
+        n = -n
+    q = Fraction(n, d)
+    header = rng.choice(["", "", "(set-logic QF_UFLIRA)", "(set-logic AUFLIRA)", "(set-logic QF_LRA)"])
+    form = rng.randrange(4)
+    if form == 0:
+        body = lambda dec: "(declare-fun x () Real)(assert (= x (/ %s %s)))" % (_num_text(n, dec), _num_text(d, dec))
+        build = lambda m: [m.Equals(m.Symbol("x", REAL), m.Real(q))]
+        idx = [1]
+    elif form == 1:
+        body = lambda dec: "(assert (= (* %s (/ %s %s)) %s))" % (_num_text(d, True), _num_text(n, dec), _num_text(d, dec),
+                                                                 _num_text(n, True))
+        build = lambda m: [m.Equals(m.Times(m.Real(d), m.Real(q)), m.Real(n))]
+        idx = [0]
+    elif form == 2:
+        n2, d2 = rng.choice(SMALL_QUOTS)
+        q2 = Fraction(n2, d2)
+        body = lambda dec: "(assert (= (+ (/ %s %s) (/ %s %s)) %s))" % (
+            _num_text(n, dec), _num_text(d, dec), _num_text(n2, dec), _num_text(d2, dec),
+            "(/ %s %s)" % (_num_text((q + q2).numerator, dec), _num_text((q + q2).denominator, dec)))
+        build = lambda m: [m.Equals(m.Plus(m.Real(q), m.Real(q2)), m.Real(q + q2))]
+        idx = [0]
+    else:
+        body = lambda dec: "(declare-fun x () Real)(assert (<= (/ %s %s) x))(assert (<= x (/ %s %s)))" % (
+            _num_text(n, dec), _num_text(d, dec), _num_text(n, dec), _num_text(d, dec))
+        build = lambda m: [m.LE(m.Real(q), m.Symbol("x", REAL)), m.LE(m.Symbol("x", REAL), m.Real(q))]
+        idx = [1, 2]
+    return header, body, build, idx, q
+
+
+def run_numeral_division(ctx, ig, lines, meta, n):
+    from pysmt.typing import REAL
+    for i in range(n):
+        header, body, build, idx, q = numeral_division_case(ctx.rng)
+        text = header + body(False)
+        twin = header + body(True)
+        off = 1 if header else 0
+        ctx.case(("numdiv", text))
+        ctx.count("numeral_division_cases")
+        if i % 3 == 0:
+            K_TEXTS.append(("numeral-division", text))
+        res = run_impl(text)
+        rep = {"text": text, "stream": "numeral-division", "tags": ["numeral-division"], "may_reject": [], "twin": twin}
+        if res[0] == "err":
+            ctx.report_s({"oracle": "accept", "kind": "generated", "error": res[1], "stream": "numeral-division"},
+                         "a division of two numerals, read today as the exact Real constant, is rejected: %s %s" % (res[1], res[2]),
+                         dict(rep, error="%s: %s" % (res[1], res[2])))
+            continue
+        wants = build(res[2].formula_manager)
+        pairs = []
+        for want, ci in zip(wants, idx):
+            ci += off
+            got = res[1].commands[ci].args[0]
+            what = "assert#%d" % ci
+            pairs.append((what, got))
+            r2 = dict(rep, command=what, intended=semantic.readable(want), returned=semantic.readable(got))
+            if got is want:
+                ctx.count("numeral_division_identical")
+            # interpretations: x = the exact quotient, x = the quotient rounded to a double, and random ones
+            interps = ig.sample([want, got], n=3)
+            for v in (q, Fraction(float(q)) if abs(q) < 10 ** 300 else q):
+                interps.append(([("x", REAL, v)] if want.get_free_variables() else [], [], interps[0][2]))
+            try:
+                lines.append(semantic.chk_equiv_line(want, got, interps, check_fv=True))
+                meta.append(({"oracle": "meaning", "stream": "numeral-division", "command": "assert"}, r2))
+            except wire.OutOfFragment:
+                ctx.count("out_of_fragment")
+        STD_QUEUE.append((twin, pairs, dict(rep, note="standard reader on the decimalised twin of the text"), ig))
+
+
+# (2) user symbols spelled like the names the parser generates: `__<param><k>` (formal parameters of define-fun) and `<var><k>`
+#     (a bound variable whose name the manager knows with another sort), for k around the formula manager's fresh counter
+def fresh_name_case(rng):
+    """-> (text, build(m) -> [(command index, intended formula)], interps hints)"""
+    from pysmt.typing import INT, REAL
+    kind = rng.randrange(3)
+    K = rng.randint(1, 4)
+    if kind == 0:
+        # K definitions with a formal `x`, each using the user's `__x<j>`
+        p = rng.choice(["x", "y", "a%"]) if rng.random() < 0.8 else "x"
+        p = p.replace("%", "")
+        names = ["__%s%d" % (p, j) for j in range(K + 1)]
+        parts = ["(declare-fun %s () Int)" % nm for nm in names]
+        want = []
+        for j in range(K):
+            c, r = rng.randint(1, 5), rng.randint(5, 9)
+            parts.append("(define-fun f%d ((%s Int)) Int (+ %s %s))" % (j, p, p, names[j]))
+            parts.append("(assert (= (f%d %d) %d))" % (j, c, r))
+            want.append((len(parts) - 1, (lambda nm, c, r: lambda m: m.Equals(m.Plus(m.Int(c), m.Symbol(nm, INT)), m.Int(r)))(names[j], c, r),
+                         (names[j], r - c)))
+        return "".join(parts), want
+    if kind == 1:
+        # a bound variable `v` whose name is declared with another sort, user symbols `v0 … vK`
+        v = rng.choice(["x", "y", "v"])
+        names = ["%s%d" % (v, j) for j in range(K + 1)]
+        parts = ["(declare-fun %s () Real)" % v] + ["(declare-fun %s () Int)" % nm for nm in names]
+        want = []
+        for j in range(K):
+            q = rng.choice(["exists", "forall"])
+            parts.append("(assert (%s ((%s Int)) (> %s %s)))" % (q, v, v, names[j]))
+
+            def mk(nm, q):
+                def b(m):
+                    bv = m.Symbol("bound!%s" % v, INT)
+                    body = m.GT(bv, m.Symbol(nm, INT))
+                    return (m.Exists if q == "exists" else m.ForAll)([bv], body)
+                return b
+            want.append((len(parts) - 1, mk(names[j], q), (names[j], 0)))
+        return "".join(parts), want
+    # both at once: the definitions advance the counter the quantifier's fresh name starts from
+    parts = ["(declare-fun x () Real)"] + ["(declare-fun x%d () Int)" % j for j in range(K + 2)] + \
+            ["(declare-fun __x%d () Int)" % j for j in range(K + 2)]
+    want = []
+    for j in range(K):
+        parts.append("(define-fun g%d ((x Int)) Bool (< x __x%d))" % (j, j + 1))
+        parts.append("(assert (g%d %d))" % (j, j))
+        want.append((len(parts) - 1, (lambda j: lambda m: m.LT(m.Int(j), m.Symbol("__x%d" % (j + 1), INT)))(j), ("__x%d" % (j + 1), j + 1)))
+        parts.append("(assert (exists ((x Int)) (> x x%d)))" % (j + 1))
+
+        def mk(j):
+            def b(m):
+                bv = m.Symbol("bound!x", INT)
+                return m.Exists([bv], m.GT(bv, m.Symbol("x%d" % (j + 1), INT)))
+            return b
+        want.append((len(parts) - 1, mk(j), ("x%d" % (j + 1), 0)))
+    return "".join(parts), want
+
+
+def run_fresh_names(ctx, ig, lines, meta, n):
+    from pysmt.typing import INT
+    for i in range(n):
+        text, want = fresh_name_case(ctx.rng)
+        ctx.case(("fresh", text))
+        ctx.count("fresh_name_cases")
+        if i % 2 == 0:
+            K_TEXTS.append(("fresh-names", text))
+        res = run_impl(text)
+        rep = {"text": text, "stream": "fresh-names", "tags": ["fresh-names"], "may_reject": []}
+        if res[0] == "err":
+            ctx.report_s({"oracle": "accept", "kind": "generated", "error": res[1], "stream": "fresh-names"},
+                         "a legal script whose declared symbols are spelled like the parser's generated names is rejected: %s %s"
+                         % (res[1], res[2]), dict(rep, error="%s: %s" % (res[1], res[2])))
+            continue
+        m = Environment().formula_manager
+        pairs = []
+        for ci, b, (hname, hval) in want:
+            w = b(m)
+            got = res[1].commands[ci].args[0]
+            what = "assert#%d" % ci
+            pairs.append((what, got))
+            interps = ig.sample([w, got], n=5)
+            # … and one interpretation under which the intended formula is true (the symbol at its critical value)
+            for k in range(2):
+                base = ig.sample([w, got], n=1)[0]
+                interps.append(([(nm, t, (hval if nm == hname else v)) for nm, t, v in base[0]], base[1], base[2]))
+            try:
+                lines.append(semantic.chk_equiv_line(w, got, interps, check_fv=True))
+                meta.append(({"oracle": "meaning", "stream": "fresh-names", "command": "assert"},
+                             dict(rep, command=what, intended=semantic.readable(w), returned=semantic.readable(got))))
+            except wire.OutOfFragment:
+                ctx.count("out_of_fragment")
+        STD_QUEUE.append((text, pairs, rep, ig))
+
+
 def run_repaired_shapes(ctx):
     for fid, text, must_reject, names, kind in REPAIRED_SHAPES:
         K_TEXTS.append(("repaired-" + kind, text))
@@ -3136,6 +3536,11 @@ def run(ctx):
     run_f10_f17(ctx, ig, lines, meta)
     # the dedicated streams are small and run first: they are not cut when building the Lean side took most of the budget
     run_let_witnesses(ctx, ig, lines, meta)
+    run_formula_routes(ctx, ig, lines, meta, 120 if quick else 1500)
+    mark("formula-routes")
+    run_numeral_division(ctx, ig, lines, meta, 90 if quick else 1200)
+    run_fresh_names(ctx, ig, lines, meta, 60 if quick else 800)
+    mark("numerals-and-names")
     # (when building the Lean side has used up the budget -- the sources changed -- a reduced number of cases of each dedicated
     #  stream is still run: a few seconds in all)
     short = ctx.time_left() < (60 if quick else 400)
@@ -3185,6 +3590,8 @@ def run(ctx):
     mark("sem-oracle")
     run_std_oracle(ctx)
     mark("std-oracle")
+    run_live_oracle(ctx)
+    mark("live-oracle")
     run_model(ctx, K_TEXTS)
     mark("model")
 
@@ -3325,6 +3732,34 @@ def replay(ctx, rep):
             if a[0] != b[0] or norm(sa) != norm(sb):
                 ctx.report_s(sig, rep["what"], r)
                 return
+        return
+    if r.get("stream") == "formula-routes" and "route" in r:
+        print("text:\n" + r["text"], "\nroute:", r["route"], "\nassertions in force at the end:", r.get("live"))
+        res = _route_formula(r["route"], r["text"])
+        if res[0] == "err":
+            print("the route raises %s: %s" % (res[1], res[2]))
+            ctx.report_s(sig, rep["what"], r)
+            return
+        print("returned now:", semantic.readable(res[1]))
+        line = r.get("request")
+        if line and "request_prefix" in r:
+            line = r["request_prefix"] + " " + wire.enc_term(res[1])
+        elif line:
+            # `chk_equiv… k <interps> <intended> <returned>`: keep everything up to the intended term
+            from pysmt.typing import BOOL, INT
+            m = res[2].formula_manager
+            sy = dict([("p%d" % i, m.Symbol("p%d" % i, BOOL)) for i in range(4)] + [("i%d" % i, m.Symbol("i%d" % i, INT)) for i in range(3)])
+            sub = run_impl("".join("(declare-fun p%d () Bool)" % i for i in range(4)) + "".join("(declare-const i%d Int)" % i for i in range(3))
+                           + "".join("(assert %s)" % t for t in r.get("live", [])))
+            want = sub[2].formula_manager.And([c.args[0] for c in sub[1].commands if c.name == "assert"])
+            old_want = wire.enc_term(want)
+            if old_want in line:
+                line = line[:line.index(old_want) + len(old_want)] + " " + wire.enc_term(res[1])
+        if line:
+            ans = ctx.lean_run("Sem", [line])[0]
+            print("semantic oracle:", ans)
+            if not ans.startswith("ok"):
+                ctx.report_s(sig, rep["what"], dict(r, request=line, answer=ans))
         return
     if "text" not in r:
         print("nothing to replay:", rep.get("what"))
